@@ -1031,7 +1031,7 @@ C19.rule = ("cases drawn from VERIF_SEED: 25% direct round trips (1-12 styled te
             "9% FileProxy over a console whose render hook fails chosen prints (Exception / BaseException; lines completed by a failed write may be missing, nothing else), "
             "9% several writer threads (2-3) writing whole unstyled lines to one redirected stream under a seeded schedule (each line printed once, whole, in its writer's order), "
             "57% proxy runs (1-7/14 styled lines, 5% of their words carrying a BS / VT / FF that rich strips, over stdout+stderr, encoder-made or hand-written SGR with carry-over, torn at seeded positions biased "
-            "into escape sequences, with empty writes, flushes, sleeps and refreshes; Live or Progress; refresh thread in 40%); non-trivial = at least "
+            "into escape sequences, with empty writes, writelines() calls, flushes, sleeps and refreshes; Live or Progress; refresh thread in 40%); non-trivial = at least "
             "one text / one completed line; distinct = distinct (case, switch-signature)")
 C19.components_real = ["rich.ansi (AnsiDecoder)", "rich.file_proxy (FileProxy)", "rich.style / rich.color (encoder)", "rich.live", "rich.progress", "rich.console"]
 C19.components_stub = ["terminal -> SimFile + dsim.term", "sys.stdout/sys.stderr originals -> StringIO sentinels (the FileProxy objects rich installs are real)",
